@@ -280,6 +280,9 @@ def _run(ctx):
                  'second start of the same task (retry, rerun) collides '
                  'with the first child and starts nothing', ctx.loc(sc))
 
+    # the RPC path carries the same arguments as the in-process path
+    shared.rpc_client_payload_as_given(ctx, r3)
+
     # ---- R4 environment of the root execution ----------------------------------
     r5 = ctx.rule('R5', 'a sub-workflow counts as finished for its parent '
                   'exactly while it is in a completed state', 'GD+PAIR')
